@@ -318,6 +318,8 @@ class Ctx:
         self.checker_cmd = ""
         self.trusted = []
         self.extra = {}
+        self.violation_keys = {}
+        self.known_keys = {}
         self.kf = [f for f in known_findings().get("findings", []) if f.get("property") == pid]
 
     # -- bookkeeping used by property modules
@@ -343,10 +345,14 @@ class Ctx:
         """replay: JSON-serialisable dict describing the failing input / history on the implementation"""
         kid = self.match_known(what, replay)
         if kid is not None:
+            kk = replay.get("key", "?")
+            self.known_keys[kk] = self.known_keys.get(kk, 0) + 1
             if kid not in [k["id"] for k in self.known_hits]:
                 self.known_hits.append({"id": kid, "what": what})
             return False
         self.violations.append({"what": what, "replay": replay})
+        k = replay.get("key", "?") if isinstance(replay, dict) else "?"
+        self.violation_keys[k] = self.violation_keys.get(k, 0) + 1
         return True
 
     def match_known(self, what, replay):
@@ -423,6 +429,8 @@ class Ctx:
                 "disagreements": len(self.disagreements),
                 "broken_obligations": self.broken,
                 "known_findings_reproduced": [k["id"] for k in self.known_hits],
+                "known_finding_hits_by_key": self.known_keys,
+                "violation_keys": self.violation_keys,
                 **self.extra,
             },
             "assumptions": self.notes,
